@@ -5,7 +5,10 @@
 (* external stimulus the harness logs the whole abstract state:            *)
 (*                                                                         *)
 (*  obs = [state, state_epoch, data_epoch, epoch, imm,                     *)
-(*         inits  = << [epoch, key] >>     stored protocol initializers    *)
+(*         inits  = << [epoch, key, gen] >>  stored protocol initializers  *)
+(*         params = << [epoch, gen] >>     the protocol parameter          *)
+(*                      GENERATION the aggregator keeps per recording      *)
+(*                      epoch (the parameters really differ)               *)
 (*         stakes = << [epoch, of_previous_epoch] >>  (not constrained:   *)
 (*                      how stake distributions are keyed is the signer's  *)
 (*                      business; checks/c20.py reports a change as drift) *)
@@ -19,19 +22,24 @@
 (*                                                                         *)
 (*   ee               the epoch the signed beacon belongs to               *)
 (*   key              small id of a verification key                       *)
+(*   gen (inits)      the generation of the parameters embedded in the     *)
+(*                    stored initializer = those its key signs with        *)
 (*   sigma            small id of a signature value                        *)
 (*   verifies_under   the recording epochs r such that a REAL MultiSigner  *)
 (*                    built from exactly the registrations the aggregator  *)
-(*                    holds for r accepts the signature                    *)
+(*                    holds for r, WITH THE PARAMETERS IT KEEPS FOR r,     *)
+(*                    accepts the signature                                *)
 (*   made_with_stored the recording epochs r such that re-signing with the *)
 (*                    initializer the signer has STORED for r gives this   *)
 (*                    very signature                                       *)
 (*   msg_ok           the signed message is the one an aggregator computes *)
-(*                    for that beacon from its own registrations           *)
+(*                    for that beacon from its own registrations and its   *)
+(*                    own next protocol parameters                         *)
 (*   data_epoch       the epoch of the signer's epoch-service data         *)
 (*                                                                         *)
 (* Protocol offsets: registrations of epoch e are recorded for e+1, the    *)
-(* key / signer set of a beacon of epoch e are those recorded for e-1.     *)
+(* key / signer set / protocol parameters of a beacon of epoch e are those *)
+(* recorded / kept for e-1, its message carries the parameters kept for e. *)
 (* The contract states the property clauses on every observation and on    *)
 (* every pair of consecutive observations; it does not require the steps   *)
 (* to be transitions of the implementation-shaped Signer.tla.              *)
@@ -57,6 +65,8 @@ KnownFor(e) == \E i \in DOMAIN Known :
 
 KeyAt(rows, r) == IF \E i \in DOMAIN rows : rows[i].epoch = r
                   THEN rows[CHOOSE i \in DOMAIN rows : rows[i].epoch = r].key ELSE 0
+GenAt(rows, r) == IF \E i \in DOMAIN rows : rows[i].epoch = r
+                  THEN rows[CHOOSE i \in DOMAIN rows : rows[i].epoch = r].gen ELSE 0
 InitKey(o, r) == KeyAt(o.inits, r)
 RegKey(o, r)  == KeyAt(o.regs, r)
 
@@ -82,7 +92,12 @@ EpochKey(o, s) ==
     /\ r \in Range(s.made_with_stored)
 
 (* (c) accepted by an aggregator that derives its signer set from the same registrations under the offsets *)
-Accepted(o, s) == s.party_is_signer /\ (s.ee - 1) \in Range(s.verifies_under) /\ s.msg_ok
+(*     and the protocol parameters it keeps for the signing epoch: the real verification, the explicit         *)
+(*     comparison of the parameters embedded in the initializer that made the signature (clause b) with the    *)
+(*     aggregator's, and the message recomputed on the aggregator's side                                       *)
+Accepted(o, s) ==
+    /\ s.party_is_signer /\ (s.ee - 1) \in Range(s.verifies_under) /\ s.msg_ok
+    /\ GenAt(o.inits, s.ee - 1) # 0 /\ GenAt(o.inits, s.ee - 1) = GenAt(o.params, s.ee - 1)
 
 (* (e) publish THEN mark: marked as signed only once the aggregator received a signature (unless the signer  *)
 (*     had none to send: it won no lottery)                                                                  *)
